@@ -2274,7 +2274,12 @@ class Connection_Manager( Object ):
             if log.isEnabledFor( logging.DETAIL ):
                 log.detail( "%s Routing request to target Object at address %s", self, enip_format( targetpath ))
             # We have the service and path. Find the target Object (see state_multiple_service.closure)
-            ids			= resolve( targetpath.path )
+            try:
+                ids		= resolve( targetpath.path )
+            except AssertionError:
+                # An unrecognized symbolic Tag; the Message Router (dialect, eg. Logix) reports the
+                # CIP path error, just as it does for the same request in a Multiple Service Packet.
+                ids		= Message_Router.class_id, 1, None
             target		= lookup( *ids )
             if log.isEnabledFor( logging.DETAIL ):
                 log.detail( u"{} Found target object for address {} resolves to {}: {!r}".format(
